@@ -37,6 +37,7 @@ type crashInput struct {
 	MaxDoc    int    `json:"maxdoc"`
 	KillPoint string `json:"kill_point"` // txn.begin | txn.precommit | txn.committed | cas.beforeSetLastCas | cas.beforePost
 	KillNth   int    `json:"kill_nth"`
+	KillLast  bool   `json:"kill_last,omitempty"` // false: count occurrences from the start; true: count only inside the last step
 }
 
 type crashChildParam struct {
@@ -181,10 +182,13 @@ func runCrashChild(cfg runCfg, emit func(Case)) error {
 	rosmar.VerifSetClock(func() uint64 { return atomic.LoadUint64(&k.clock) })
 	rosmar.VerifResetHLC(0)
 	rosmar.MaxDocSize = p.In.MaxDoc
-	var seen int32
+	var seen, curStep int32
 	rosmar.VerifSetHook(func(point string, args ...any) {
 		if point == "expiry.fire" {
 			select {} // no timer firings in this family
+		}
+		if p.In.KillLast && int(atomic.LoadInt32(&curStep)) != len(p.In.Ops) {
+			return
 		}
 		if point == p.In.KillPoint {
 			if int(atomic.AddInt32(&seen, 1)) == p.In.KillNth {
@@ -210,6 +214,7 @@ func runCrashChild(cfg runCfg, emit func(Case)) error {
 			cas = k.resolveCas(st.Op.CasMode, st.Coll, st.Key)
 		}
 		say("begin %d %d %d", i, time.Now().Unix(), cas)
+		atomic.StoreInt32(&curStep, int32(i+1))
 		switch st.Kind {
 		case "kv":
 			if _, _, err := k.doKv(st); err != nil {
@@ -232,6 +237,7 @@ func runCrashChild(cfg runCfg, emit func(Case)) error {
 				_ = col.DeleteDDoc(st.DDoc)
 			}
 		}
+		atomic.StoreInt32(&curStep, 0)
 		// the CAS history that "current" / "stale" CAS arguments of later steps resolve against
 		if _, err := k.snapshot(); err != nil {
 			return err
@@ -398,6 +404,35 @@ func genCrash(r *rand.Rand) crashInput {
 	}
 	in.KillPoint = pick(r, []string{"txn.begin", "txn.precommit", "txn.committed", "cas.beforeSetLastCas", "cas.beforePost"})
 	in.KillNth = 1 + r.Intn(2*len(in.Ops)+1)
+	if len(in.Ops) > 0 && r.Intn(2) == 0 {
+		// aim at one call: the n-th occurrence of the point inside step i (a call made of several
+		// transactions has several)
+		i := r.Intn(len(in.Ops))
+		var multi []int
+		for j, st := range in.Ops {
+			if st.Kind == "putddoc" || st.Kind == "delddoc" || st.Kind == "drop" || st.Kind == "purge" || st.Kind == "create" {
+				multi = append(multi, j)
+			}
+		}
+		switch x := r.Intn(4); {
+		case x == 0:
+			// a design document replaced by a different one (the old one must go and the new one appear together)
+			perm := r.Perm(len(mapSources))
+			cn := pick(r, []string{"_default._default", "s1.c1"})
+			if cn == "s1.c1" {
+				in.Ops = append(in.Ops, Step{Kind: "create", Coll: cn, Clock: kin.Ops[len(kin.Ops)-1].Clock + 1})
+			}
+			clk := kin.Ops[len(kin.Ops)-1].Clock + 2
+			in.Ops = append(in.Ops, Step{Kind: "putddoc", Coll: cn, DDoc: "dd", Views: []ViewDef{{Name: "v0", Map: perm[0]}}, Clock: clk},
+				Step{Kind: "putddoc", Coll: cn, DDoc: "dd", Views: []ViewDef{{Name: "v0", Map: perm[1]}, {Name: "v1", Map: perm[0]}}, Clock: clk + 1})
+			i = len(in.Ops) - 1
+		case x == 1 && len(multi) > 0:
+			i = multi[r.Intn(len(multi))]
+		}
+		in.KillLast = true
+		in.KillNth = 1 + r.Intn(3)
+		in.Ops = in.Ops[:i+1]
+	}
 	return in
 }
 
